@@ -1,7 +1,8 @@
 (** C11 -- all actions present the same data.  Property file: the full statement, the proved statement
     (closed by [exact] of the generic theorems of C11/Actions.v and C11/Names.v), the instantiation
     obligations on the facts regenerated from /repo on every run (Gen.C01Facts, Gen.C11Facts), non-vacuity
-    examples, the refutations, and Print Assumptions. *)
+    examples, and Print Assumptions.  The refutations C11_refuted_* (one per listed finding) are in
+    coq/props/C11_refuted.v and are compiled chunk by chunk by the check. *)
 From SF Require Import C11.Actions.
 From Gen Require Import C01Facts C11Facts.
 Open Scope Z_scope.
@@ -16,8 +17,8 @@ Proof. intros x y Hx Hy. unfold gen_cfg, C01Facts.limit_merge; cbn [Chain.limit_
 Lemma gen_head_ok : head_ok gen_afacts.
 Proof.
   unfold head_ok, gen_afacts, head_arg, head_scalar, head_index; cbn [a_head_arg a_head_scalar a_head_index].
-  repeat split; try reflexivity.
-  intros k Hk. destruct (Z.eqb_spec k 0); [lia | reflexivity].
+  split; [reflexivity|]. split; [|split; [reflexivity | split; [intro k; reflexivity | reflexivity]]].
+  intros k Hk. destruct (Z.eqb_spec k 0); first [lia | reflexivity].
 Qed.
 Lemma gen_first_ok : first_ok gen_afacts.
 Proof. reflexivity. Qed.
@@ -135,68 +136,19 @@ Example C11_clash_free_nonempty : clash_free ["a"; "a"; "b"; "a"]%string = true 
   unique_field_names ["a"; "a"; "b"; "a"]%string = ["a"; "a_1"; "b"; "a_3"]%string.
 Proof. vm_compute. split; reflexivity. Qed.
 
-(** * Refutations: the full statement is false of the faithful model (each is a listed finding) *)
-Definition one_row : frame := mkFrame ["a"; "b"; "s"]%string [[VInt 1; VInt 2; VStr "x"]].
+(** the premises of the two environment-parametric theorems are satisfiable: a concrete renderer/engine pair, and the
+    state transformer that really only changes the receiver when something is written *)
+Example C11_same_statement_nonvacuous :
+  fetched (fun p d => (p, cur d)) (fun t input => eval_block (snd t) input) path_of arrow_executes_before_reading
+          AToArrow (init_df (cols ex_input)) ex_input None
+  = Some ex_input.
+Proof. vm_compute. reflexivity. Qed.
+Example C11_independence_nonvacuous :
+  let clobber := fun (ws : list string) (d : df) => match ws with [] => d | _ => wrap d end in
+  (forall d, clobber [] d = d) /\
+  run action_writes clobber [("count"%string, fun d => count d ex_input); ("collect"%string, fun d => Some (Z.of_nat (List.length (collect d ex_input))))]
+      (compile gen_cfg ex_ops (init_df (cols ex_input))) = [Some 3; Some 3].
+Proof. split; [reflexivity | vm_compute; reflexivity]. Qed.
 
-(** head(0) returns a row: [0 or 1] is 1 *)
-Theorem C11_refuted_head0 :
-  exists ops input, wf_frame input /\ NoDup (cols input) /\
-    ops_ok gen_cfg (init_df (cols input)) (cols input) ops = true /\
-    let d := compile gen_cfg ops (init_df (cols input)) in
-    head (Some 0%nat) d input = HList (firstn 1 (collect d input)) /\
-    head (Some 0%nat) d input <> HList (firstn 0 (collect d input)).
-Proof.
-  exists [], one_row. split; [|split; [|split]].
-  - intros r [<-|[]]; reflexivity.
-  - apply nodupb_sound; reflexivity.
-  - reflexivity.
-  - vm_compute. split; [reflexivity | discriminate].
-Qed.
-
-(** show() that prints no row prints no column names either *)
-Theorem C11_refuted_show_empty :
-  exists ops input n, wf_frame input /\ NoDup (cols input) /\
-    ops_ok gen_cfg (init_df (cols input)) (cols input) ops = true /\
-    let d := compile gen_cfg ops (init_df (cols input)) in
-    show n d input = STable [] [] /\ show n d input <> STable (columns d) (firstn n (collect d input)).
-Proof.
-  exists [], one_row, 0%nat. split; [|split; [|split]].
-  - intros r [<-|[]]; reflexivity.
-  - apply nodupb_sound; reflexivity.
-  - reflexivity.
-  - vm_compute. split; [reflexivity | discriminate].
-Qed.
-
-(** repeated names: show() freezes the block first, so every same-named column shows the first one's values *)
-Definition dup_ops : list op := [OSelect [(ECol "a", "x"%string); (ECol "b", "x"%string)]].
-Theorem C11_refuted_show_duplicate_names :
-  let d := compile gen_cfg dup_ops (init_df (cols one_row)) in
-  collect d one_row = [[VInt 1; VInt 2]] /\
-  show 1%nat d one_row = STable ["x"; "x_1"]%string [[VInt 1; VInt 1]].
-Proof. vm_compute. split; reflexivity. Qed.
-
-(** the renaming can collide with a later/earlier name: the header has a duplicate and PrettyTable raises *)
-Definition clash_ops : list op :=
-  [OSelect [(ECol "a", "a_2"%string); (ECol "b", "a"%string); (ECol "s", "a"%string)]].
-Theorem C11_refuted_names :
-  unique_field_names ["a_2"; "a"; "a"]%string = ["a_2"; "a"; "a_2"]%string /\
-  ~ NoDup (unique_field_names ["a_2"; "a"; "a"]%string) /\
-  show 1%nat (compile gen_cfg clash_ops (init_df (cols one_row))) one_row = SRaise.
-Proof.
-  split; [vm_compute; reflexivity|]. split; [|vm_compute; reflexivity].
-  intro H. vm_compute in H. inversion H as [|x l Hin _]; subst. apply Hin. right; left; reflexivity.
-Qed.
-
-Theorem C11_full_is_false : ~ C11_full.
-Proof.
-  intro H.
-  assert (Hwf : wf_frame one_row) by (intros r [<-|[]]; reflexivity).
-  assert (Hnd : NoDup (cols one_row)) by (apply nodupb_sound; reflexivity).
-  destruct (H [] one_row 0%nat Hwf Hnd) as (_ & _ & _ & _ & Hh & _).
-  vm_compute in Hh. discriminate.
-Qed.
-Theorem C11_names_full_is_false : ~ C11_names_full.
-Proof. intro H. exact (proj1 (proj2 C11_refuted_names) (H _)). Qed.
-Print Assumptions C11_refuted_head0.
-Print Assumptions C11_refuted_names.
-Print Assumptions C11_full_is_false.
+(** The refutations of the full statement (one per listed finding) are in coq/props/C11_refuted.v; the check compiles
+    each of them separately, so that repairing one defect in /repo does not hide the others. *)
